@@ -12,6 +12,9 @@ OBLIGATIONS = [NS + t for t in [
     "index_append", "subview_in_bounds", "sub_get", "sub_wf", "slice_get", "slice_wf",
     "reshape_size", "reshape_wf", "reshape_rejects_negative", "gather_dims", "gather_get",
     "keptRows_eq_filter", "removeIf_eq_filter", "removeIf_eq_gather",
+    "index_lex_mono", "lexLt_iff_lt", "reshape_infer_one", "reshape_explicit", "reshape_rejects", "reshape_get",
+    "slice_in_bounds", "gather_wf",
+    "stack_block_get",
     "integralData_spec", "integral_eq_prefix_sums", "integral_rank1", "integral_rank2",
 ]]
 TRUSTED = [
@@ -27,11 +30,16 @@ ASSUMPTIONS = [
     "memory safety beyond 'the aliased range lies inside the buffer' is observed by the ASan/UBSan flavour of the thorough tier only",
 ]
 RULE = ("exhaustive small shapes (quick: rank 1-3 dims 0..4, rank 4 dims 0..3, rank 5 sampled; thorough: rank 1-4 dims 0..4, rank 5 dims 0..3), "
-        "every valid index tuple, every index prefix for tensor()/vector()/matrix() over 10 scalar types (cycled), every slice [b,e), every "
-        "factorisation for reshape with one -1 at each position, random gathers/integrals/remove_if masks/stacks and random larger shapes; "
+        "every valid index tuple, every index prefix for tensor()/vector()/matrix() over 10 scalar types (cycled), every slice [b,e) "
+        "(on owning/const/map/cmap storages and the range overload, cycled; rank 1 also segment()), every factorisation for reshape with "
+        "one -1 at each position (storages cycled), random gathers (6 return scalar types cycled)/integrals/remove_if masks/vector stacks, "
+        "gap-free matrix stacks of 1..4 blocks, and random larger shapes incl. reshapes with an inferred axis; "
         "a case is non-trivial when size > 1 and some dimension is not 1; distinct by op text")
 FLAVOUR = {"quick": "plain", "thorough": "asan"}
 EXHAUSTIVE = {"quick": False, "thorough": True}
+STORAGES = ["mem", "cmem", "map", "cmap"]
+SLICE_HOW = STORAGES + ["range"]
+GATHER_TYPES = ["i64", "i32", "i8", "u16", "f32", "f64"]
 TYPES = ["i8", "i16", "i32", "i64", "u8", "u16", "u32", "u64", "f32", "f64"]
 
 
@@ -76,6 +84,12 @@ def factorisations(n, k):
 def gen(rng, tier):
     ops = []
     tcount = [0]
+    vcount = [0]
+
+    def cyc(choices):
+        """cycle through the storage / overload / return-type variants of an accessor"""
+        vcount[0] += 1
+        return choices[vcount[0] % len(choices)]
 
     def ty():
         tcount[0] += 1
@@ -109,19 +123,21 @@ def gen(rng, tier):
                         ops.append(f"tensor submat {D} {lst(pre)} {ty()}")
             for b in range(dims[0] + 1):
                 for e in range(b, dims[0] + 1):
-                    ops.append(f"tensor slice {D} {b} {e}")
+                    ops.append(f"tensor slice {D} {b} {e} {cyc(SLICE_HOW)}")
+                    if rank == 1:
+                        ops.append(f"tensor segment {D} {b} {e - b} {cyc(STORAGES)}")
             if rank <= 3 or rng.chance(0.2):
                 for k in range(1, 4 if n > 0 else 3):
                     for f in factorisations(n, k):
-                        ops.append(f"tensor reshape {D} {lst(f)}")
+                        ops.append(f"tensor reshape {D} {lst(f)} {cyc(STORAGES)}")
                         for pos in range(k):
                             others = prod(f[:pos] + f[pos + 1:])
                             if others != 0:  # C++ would divide by zero otherwise
                                 g = list(f); g[pos] = -1
-                                ops.append(f"tensor reshape {D} {lst(g)}")
+                                ops.append(f"tensor reshape {D} {lst(g)} {cyc(STORAGES)}")
             if dims[0] > 0:
                 cnt = rng.range(0, 6)
-                ops.append(f"tensor gather {D} {lst([rng.below(dims[0]) for _ in range(cnt)])}")
+                ops.append(f"tensor gather {D} {lst([rng.below(dims[0]) for _ in range(cnt)])} {cyc(GATHER_TYPES)}")
             ops.append(f"tensor integral {D} {lst([rng.range(-9, 9) for _ in range(n)])}")
             ops.append(f"tensor removeif {D} {lst([rng.below(2) for _ in range(dims[0])])}")
             ops.append(f"tensor convert {D}")
@@ -140,21 +156,71 @@ def gen(rng, tier):
             k = rng.range(0, rank - 1)
             ops.append(f"tensor sub {D} {lst([rng.below(d) for d in dims[:k]])} {ty()}")
             b = rng.range(0, dims[0]); e = rng.range(b, dims[0])
-            ops.append(f"tensor slice {D} {b} {e}")
-            ops.append(f"tensor gather {D} {lst([rng.below(dims[0]) for _ in range(rng.range(0, 8))])}")
+            ops.append(f"tensor slice {D} {b} {e} {cyc(SLICE_HOW)}")
+            ops.append(f"tensor gather {D} {lst([rng.below(dims[0]) for _ in range(rng.range(0, 8))])} {cyc(GATHER_TYPES)}")
+            # reshape of a larger shape: merge two adjacent axes / split off the first axis, one entry inferred
+            if rank >= 2:
+                k = rng.range(0, rank - 2)
+                merged = dims[:k] + [dims[k] * dims[k + 1]] + dims[k + 2:]
+                pos = rng.below(len(merged))
+                merged[pos] = -1
+                ops.append(f"tensor reshape {D} {lst(merged)} {cyc(STORAGES)}")
+            flat = [dims[0], -1] if rng.chance(0.5) else [-1, dims[-1]]
+            ops.append(f"tensor reshape {D} {lst(flat)} {cyc(STORAGES)}")
+            if rank == 1:
+                ops.append(f"tensor segment {D} {b} {e - b} {cyc(STORAGES)}")
             ops.append(f"tensor integral {D} {lst([rng.range(-99, 99) for _ in range(prod(dims))])}")
             ops.append(f"tensor removeif {D} {lst([rng.below(2) for _ in range(dims[0])])}")
     for _ in range(50 if tier == "quick" else 500):
         nb = rng.range(1, 4)
         blocks = [[rng.range(-50, 50) for _ in range(rng.range(0, 5))] for _ in range(nb)]
         ops.append(f"tensor stackvec {sum(len(b) for b in blocks)} {nb} " + " ".join(lst(b) for b in blocks))
+    # matrix form of stack: gap-free layouts of 1..4 blocks (block-rows of equal height whose widths fill the columns)
+    for _ in range(150 if tier == "quick" else 1500):
+        ops.append(stackmat_op(rng))
     return ops
+
+
+def compositions(rng, total, parts, allow_zero):
+    """`parts` non-negative integers summing to `total` (positive unless allow_zero)"""
+    lo = 0 if allow_zero else 1
+    if total < lo * parts:
+        return None
+    cuts = sorted(rng.range(0, total - lo * parts) for _ in range(parts - 1))
+    vals = [b - a + lo for a, b in zip([0] + cuts, cuts + [total - lo * parts])]
+    return vals
+
+
+def stackmat_op(rng):
+    nb = rng.range(1, 4)
+    # split the nb blocks into block-rows
+    nrows = rng.range(1, nb)
+    per_row = compositions(rng, nb, nrows, False)
+    while True:
+        rows = rng.range(0, 6) if rng.chance(0.15) else rng.range(nrows, 7)
+        cols = rng.range(max(per_row), 7)
+        heights = compositions(rng, rows, nrows, rng.chance(0.15))
+        if heights is not None:
+            break
+    blocks = []
+    for h, k in zip(heights, per_row):
+        # widths: the last block of a block-row must be non-empty, earlier ones may (rarely) be empty
+        while True:
+            widths = compositions(rng, cols, k, rng.chance(0.1))
+            if widths is not None and widths[-1] > 0:
+                break
+        for w in widths:
+            blocks.append((h, w, [rng.range(-99, 99) for _ in range(h * w)]))
+    return f"tensor stackmat {rows} {cols} {len(blocks)} " + " ".join(f"{h} {w} {lst(d)}" for h, w, d in blocks)
 
 
 def nontrivial(op):
     t = Toks(op); t.s(); o = t.s()
     if o == "stackvec":
         return True
+    if o == "stackmat":
+        rows = t.int(); cols = t.int(); nb = t.int()
+        return rows * cols > 1 and nb > 1
     dims = t.ints()
     return prod(dims) > 1 and any(d != 1 for d in dims)
 
@@ -163,7 +229,7 @@ def distribution(ops):
     d = {}
     for op in ops:
         t = op.split()
-        k = f"{t[1]}/rank{t[2]}" if t[1] != "stackvec" else "stackvec"
+        k = f"{t[1]}/rank{t[2]}" if t[1] not in ("stackvec", "stackmat") else (t[1] if t[1] == "stackvec" else f"stackmat/{t[4]}blocks")
         d[k] = d.get(k, 0) + 1
     return d
 
@@ -184,6 +250,31 @@ def oracle(op, res):
         got = r.ints()
         want = [x for b in blocks for x in b]
         return None if got == want and len(got) == n else f"stack != concatenation: {got} vs {want}"
+    if o == "stackmat":
+        rows = t.int(); cols = t.int(); nb = t.int()
+        blocks = []
+        for _ in range(nb):
+            h = t.int(); w = t.int(); blocks.append((h, w, t.ints()))
+        grows = r.int(); gcols = r.int(); got = r.ints()
+        if (grows, gcols) != (rows, cols) or len(got) != rows * cols:
+            return f"stack: result is {grows}x{gcols} with {len(got)} elements, expected {rows}x{cols}"
+        # naive placement on a 2D grid: blocks row-major, left to right, next block-row once the columns are full;
+        # every cell must be written exactly once (no gaps, no overlaps) and hold the block's element
+        grid = [[None] * cols for _ in range(rows)]
+        row0 = col0 = 0
+        for h, w, d in blocks:
+            for rr in range(h):
+                for cc in range(w):
+                    if row0 + rr >= rows or col0 + cc >= cols or grid[row0 + rr][col0 + cc] is not None:
+                        return "stack: generated layout is not a tiling (generator bug)"
+                    grid[row0 + rr][col0 + cc] = d[rr * w + cc]
+            col0 += w
+            if col0 == cols:
+                row0 += h; col0 = 0
+        want = [x for line in grid for x in line]
+        if any(x is None for x in want):
+            return "stack: generated layout has gaps (generator bug)"
+        return None if got == want else f"stack: block elements not at (row0+r, col0+c): {got} vs {want}"
     dims = t.ints()
     n = prod(dims)
     if o == "offset":
@@ -217,6 +308,12 @@ def oracle(op, res):
         if alias != horner(dims, [b]) and len(want) > 0:
             return f"slice starts at {alias}"
         return None if data == want else "slice elements differ from full indexing"
+    if o == "segment":
+        b = t.int(); ln = t.int()
+        alias = r.int(); sd, data = read_tensor(r)
+        if sd != [ln] or (alias != b and ln > 0) or b + ln > n:
+            return f"segment({b},{ln}) is {sd} at {alias}"
+        return None if data == [(b + k) % 100 for k in range(ln)] else "segment elements differ from full indexing"
     if o == "reshape":
         sizes = t.ints()
         alias = r.int(); sd, data = read_tensor(r)
